@@ -50,12 +50,13 @@ class Prover(object):
     """discharges obligations `pc => claim` with z3; optional cvc5 re-decision"""
 
     def __init__(self, res, timeout_ms, cvc5_rate=0.0, rng=None):
+        self.extra_models = []
         self.res = res
         self.timeout_ms = timeout_ms
         self.cvc5_rate = cvc5_rate
         self.rng = rng or random.Random(0)
 
-    def prove(self, name, pc, claim, extra_assumptions=()):
+    def prove(self, name, pc, claim, extra_assumptions=(), diversify=None):
         """returns ('unsat', None) | ('sat', model) | ('unknown', None)"""
         s = z3.Solver()
         s.set('timeout', self.timeout_ms)
@@ -82,8 +83,25 @@ class Prover(object):
                     self.res.inconclusive.append('solver disagreement on %s: z3=%s cvc5=%s' % (name, verdict, v2))
             else:
                 self.res.cvc5['skipped'] += 1
+        self.extra_models = []
         if r == z3.sat:
-            return 'sat', s.model()
+            m0 = s.model()
+            # witness diversification: a counterexample region often contains a few "telling" points (signed zeros, infinities, powers of ten)
+            # where the misbehaviour is observable natively although the solver's arbitrary model is not; collect a few more models
+            if diversify:
+                got = 0
+                for var, values in diversify:
+                    for val in values:
+                        if got >= 8:
+                            break
+                        s.push()
+                        s.add(var == val)
+                        s.set('timeout', min(self.timeout_ms, 10000))
+                        if s.check() == z3.sat:
+                            self.extra_models.append(s.model())
+                            got += 1
+                        s.pop()
+            return 'sat', m0
         if r == z3.unknown:
             self.res.unknown.append(name)
             return 'unknown', None
